@@ -71,7 +71,19 @@ fn gen_line(rng: &mut Rng, upper: bool, depth: &mut u32) -> String {
             format!(":{} echo label", up(rng, name))
         }
         10 => format!("{} one two", up(rng, "println")),
-        11 => "".to_string(),
+        11 => match rng.below(3) {
+            // an output variable (and maybe a label) without a command
+            0 => {
+                let name = *rng.pick(&["out", "value", "x1"]);
+                format!("{} =", up(rng, name))
+            }
+            1 => {
+                let lb = *rng.pick(&["start", "mid", "fin"]);
+                let name = *rng.pick(&["out", "value"]);
+                format!(":{} {} =", up(rng, lb), up(rng, name))
+            }
+            _ => "".to_string(),
+        },
         12 => "# a comment".to_string(),
         13 => {
             *depth += 1;
@@ -85,7 +97,7 @@ fn gen_line(rng: &mut Rng, upper: bool, depth: &mut u32) -> String {
                 "echo no block".to_string()
             }
         }
-        15 => format!("exit {}", rng.pick(&["0", "1", "3", "-2", "abc", ""])),
+        15 => format!("exit {}", rng.pick(&["0", "1", "3", "-2", "abc", "", "255", "256", "257", "512", "-256", "65536", "2147483647"])),
         16 => format!("unknown_command_{} a", rng.below(3)),
         17 => format!("trigger_error {}", q(word(rng))),
         18 => format!("exit_on_error {}", rng.pick(&["true", "false"])),
